@@ -507,6 +507,17 @@ func c06Specials(c *Case) {
 			}
 		}
 	}
+	// a subscript that begins with a prefix operator and goes on with a binary one (eighth round: a[-1 + n] read as a[-(1 + n)])
+	neg := func(x Expr) Expr { return &Unary{Op: "-", X: x} }
+	arr := Arr(N("10"), N("20"), N("30"), N("40"), N("50"))
+	for i, sub := range []Expr{
+		Bin("+", neg(N("1")), V("z")), Bin("-", neg(V("z")), N("1")), Bin("+", neg(N("1")), N("2")), Bin("+", neg(V("z")), N("3")),
+		Bin("+", Bin("-", neg(N("1")), N("1")), N("1")), Bin("+", neg(N("4")), V("y")), Bin("-", neg(N("1")), neg(N("1"))),
+		Bin("+", &Unary{Op: "!", X: V("q")}, N("1")), Bin("-", &Unary{Op: "+", X: V("z")}, N("1")),
+	} {
+		c06Long(c, Idx(arr, sub), fmt.Sprintf("subscript form %d `%s`", i, CanonExpr(sub)))
+		c06Long(c, Bin("*", Idx(Idx(Arr(arr, arr), N("1")), sub), N("2")), fmt.Sprintf("second subscript form %d `%s`", i, CanonExpr(sub)))
+	}
 	for _, fm := range []struct {
 		text string
 		e    Expr
